@@ -68,6 +68,9 @@ class Interp:
             tag = v[0] if v else None
             if tag == "r":
                 return self.env[v[1]]
+            if tag == "g":   # the .grad array of a named tensor (mg backend); a same-shaped array of ones on the NumPy side
+                t = self.env[v[1]]
+                return t.grad if self.backend == "mg" else np.ones(np.shape(t))
             if tag == "a":
                 a = np.array(v[3], dtype=v[1]).reshape(v[2])
                 a = self._fcast(a)
@@ -249,6 +252,17 @@ class Interp:
             gc.collect()
         elif k == "alias":
             env[st["out"]] = env[st["src"]]
+        elif k == "constof":
+            # a CONSTANT operand that shares its memory with the (non-constant) tensor `src`
+            src = env[st["src"]]
+            if self.backend == "np":
+                env[st["out"]] = src
+            elif st["how"] == "astensor":
+                env[st["out"]] = self.mg.astensor(src, constant=True)
+            elif st["how"] == "Tensor":
+                env[st["out"]] = self.mg.Tensor(src, copy=False, constant=True)
+            else:
+                env[st["out"]] = src.data
         else:
             raise ValueError(f"unknown statement kind {k}")
 
